@@ -9,6 +9,8 @@ S=${1:?scratch dir}; N=${2:-6}
 mkdir -p "$S" || exit 2
 ( cd /verif/checker && go build -o "$S/ogv" ./cmd/ogenverif ) || exit 2
 seeds=$(cd /verif/seeded && for d in */; do [ -f "$d/patch.diff" ] && echo "${d%/}"; done)
+# SEEDS_ONLY="id id …" restricts the run; OUT=<file> writes the table there instead of seeded/RESULTS.md
+[ -n "${SEEDS_ONLY:-}" ] && seeds="$SEEDS_ONLY"
 for i in $(seq 1 $N); do
   rm -rf "$S/v$i"; mkdir -p "$S/v$i"
   rsync -a --exclude .git --exclude seeded --exclude bin --exclude evidence --exclude checker /verif/ "$S/v$i/"
@@ -47,7 +49,7 @@ i=0; declare -a lists
 for id in $seeds; do k=$(( i % N + 1 )); lists[$k]="${lists[$k]} $id"; i=$((i+1)); done
 for k in $(seq 1 $N); do slot_run $k ${lists[$k]} & done
 wait
-out=/verif/seeded/RESULTS.md
+out=${OUT:-/verif/seeded/RESULTS.md}
 echo "| seed | property | expected | check result | rules that fired |" > $out
 echo "|---|---|---|---|---|" >> $out
 cat "$S"/out.* | sort -t'|' -k2,2 >> $out
